@@ -30,3 +30,7 @@ Definition calls_eqb (a b : call_s) : bool :=
   match a, b with SCall x, SCall y => call_eqb x y | SPollIntr x, SPollIntr y => x =? y | _, _ => false end.
 Definition check_timed_sig (ops : list (mode * qstate * option qstate * bool)) (outs : list outcome_s) (calls : list call_s) : bool :=
   let '(os, cs, f) := run_sig false ops in leqb outs_eqb os outs && leqb calls_eqb cs calls && negb f.
+
+(* in-process build: outcomes only (there are no system calls to compare) *)
+Definition check_inproc_timed (ops : list (mode * qstate * option qstate)) (outs : list outcome) : bool :=
+  leqb out_eqb (inproc_run ops) outs.
